@@ -37,13 +37,15 @@ LIB = [
     # uses its parser parameter on one path only: an argument is parsed (and ITS arguments are evaluated)
     # where and when the body gets there
     (('rule', 'Tguard', ['v', 'p'], ('choice', [('right', ('where', ('py', 'v'), ('py', 'bool')), ('ref', 'p')), ('py', '"skipped"')])), ['v', 'p']),
+    # keeps state in a value argument
+    (('rule', 'Tacc', ['p', 'acc'], ('right', ('apply', ('ref', 'p'), ('py', 'acc.append')), ('py', 'list(acc)'))), ['p', 'L']),
     (('class', 'CP', ['p', 'n'], [('field', 'first', ('ref', 'p')), ('field', 'rest', ('rep', ('lit', 'b'), None, 'n'))]), ['p', 'i']),
     (('class', 'CN', ['n'], [('field', 'items', ('rep', ('lit', 'a'), 'n', 'n')), ('field', 'n2', ('py', 'n * 2'))]), ['i']),
     (('class', 'CV', ['x'], [('field', 'w', ('ref', 'W')), ('requires', None, ('py', 'w != x')), ('field', 'tag', ('py', 'x'))]), ['s']),
 ]
 LIB_NULL = {'Tsame': False, 'Tlen': False, 'Tcount': True, 'Tpair': True, 'Tval': True, 'Tsep': True,
             'Tkw': True, 'Trec': True, 'Tpass': True, 'Topt': True, 'CP': True, 'CV': False, 'Tcap2': True,
-            'Tcap3': True, 'CN': True, 'Tshadow': True, 'Tguard': True}
+            'Tcap3': True, 'CN': True, 'Tshadow': True, 'Tguard': True, 'Tacc': True}
 
 NAMES = ['x', 'y', 'z', 'n', 'm', 'k']
 
@@ -150,6 +152,9 @@ def argument(draw, kind, scope, ctx, depth, pyscope=None):
         for x in _names(pyscope, 'siv'):
             opts += [('py', '(%s, 1)' % x), ('py', '[%s]' % x)]
         return draw(st.sampled_from(opts))
+    if kind == 'L':
+        # a list the template body adds to: every instantiation gets the list ITS argument expression made
+        return draw(st.sampled_from([('py', '[]'), ('py', '[]'), ('py', '[0]'), ('py', 'list()'), ('py', '[[]][0]')]))
     if kind == 'P':
         # a parser that cannot succeed without consuming (it is repeated inside the template)
         return _nonnull(draw(argument('p', scope, ctx, depth, pyscope)), ctx)
@@ -404,8 +409,18 @@ def family_rules(draw, idx, ctx):
                                           ('call', 'Tval', [('ref', x)], []),
                                           ('apply', ('rx', '[ab]'), ('py', 'lambda v: (v, %s)' % x))]))
     name = 'F%d' % idx
-    fam = draw(st.integers(0, 18))
+    fam = draw(st.integers(0, 19))
     x = draw(st.sampled_from(['x', 'y', 'n']))
+    if fam == 19:
+        # the same accumulating template instantiated repeatedly: in a repetition, in two alternatives, and - the
+        # module being used for many inputs - in one parse after another
+        lit = draw(st.sampled_from(['[]', '[]', '[0]', '{}']))
+        if lit == '{}':
+            c = lambda: ('call', 'Tkw', [('lit', 'a')], [('v', ('py', '{}'))])
+            return [('rule', name, None, ('seq', [('apply', ('rep', c(), 0, 3), ('py', 'lambda rows: [r[1].setdefault(len(r[1]), i) for i, r in enumerate(rows)]')),
+                                                   ('opt', ('ref', 'W'))]))]
+        c = lambda: ('call', 'Tacc', [draw(st.sampled_from([('rx', '[ab]'), ('lit', 'a'), ('ref', 'A')]))], [('acc', ('py', lit))])
+        return [('rule', name, None, ('choice', [('seq', [('rep', c(), 1, 3), ('lit', '2')]), ('seq', [c(), ('opt', c())])]))]
     if fam == 18:
         # a nested call whose value argument can only be evaluated on the path that uses it (it
         # would raise on the other one): arguments of an argument are evaluated when the argument is used
